@@ -120,7 +120,14 @@ def run(ctx):
         shp = float(rng.choice([100.0, 400.0, 250.0]))
         xg = np.clip(np.round(rng.gamma(shp, 3000.0 / shp, size=n)), 1, 32000)
         grouped.append(dict(x=[float(v) for v in xg], dtype=["int16", "int16", "float32"][it % 3], groups=[int(i % ng) for i in range(n)], ng=ng, nodata=-9999.0))
-    res, log = core.run_impl("c07_impl.py", dict(cases=cases, accessor=acc, grouped=grouped, cubes=[dict(cube=kw_cube.tolist(), dtype="int16", nodata=-9999.0)]), timeout=3000)
+    # low-variance integer data over a few hundred steps: the accessor must run the kernel on the cube as it is (a float32 copy
+    # changes the fit by single-precision logarithms and flips a few values in a thousand)
+    hs = float(rng.choice([300.0, 400.0]))
+    hs_cube = np.clip(np.round(rng.gamma(hs, 9000.0 / hs, size=(3, 3, 360))), 1, 32000)
+    res, log = core.run_impl("c07_impl.py", dict(cases=cases, accessor=acc, grouped=grouped,
+                                                 cubes=[dict(cube=kw_cube.tolist(), dtype="int16", nodata=-9999.0),
+                                                        dict(cube=hs_cube.tolist(), dtype="int16", nodata=-9999.0),
+                                                        dict(cube=(hs_cube / 7.0).tolist(), dtype="float64", nodata=-9999.0)]), timeout=3000)
     if res is None:
         ctx.violation("implementation run failed", dict(kind="impl-crash", log=log[-3000:]), found_input=False)
         return
